@@ -5,7 +5,7 @@ from .. import common as C
 
 # the model follows the code: flip when the corresponding repair is committed in /repo (known_findings.json)
 MODEL_FIXED_D2 = True
-MODEL_FIXED_D10 = False
+MODEL_FIXED_D10 = True
 
 INVS = ["C06", "C08", "C11", "C12", "C13", "IndexNeverOutlivesData"]
 
